@@ -379,7 +379,7 @@ def cmd_selftest_determinism(ids):
             digs = []
             n = 64
             for gmp in ("1", "4", "16"):
-                for rep in range(2):
+                for rep in range(4):
                     racedir, renv = race_env()
                     try:
                         res, _ = fan_out(b, pid, "quick", 12345, n, 600, [], tempfile.gettempdir(), digests=True, workers=4,
